@@ -197,6 +197,14 @@ def run(ck, fx, cg, tier):
     adid = alloc["did"]
     expect = {"bytecode::interpreter::eval_object", "bytecode::interpreter::eval_array"}
     callers = sorted(shared.effective_callers(fx, cg, adid, expect))
+    # the property speaks about what a run of `fml` creates: a function `main` cannot reach (a constructor kept for
+    # the unit tests, say) creates nothing during a run, however it is written
+    main_reach = cg.reachable(cg.dids_of(A.get("main")))
+    if ck.anchor("R16.onepush", "main", main_reach or None):
+        unreachable = [c for c in callers if c not in expect and cg.dids_of(c) and not any(d in main_reach for d in cg.dids_of(c))]
+        for c in unreachable:
+            ck.ob("R16.onepush", "%s|not part of a run" % c, True, loc(alloc), "calls allocate but cannot be reached from main", nontrivial=False)
+        callers = [c for c in callers if c not in unreachable]
     ck.ob("R16.onepush", "callers of Heap::allocate", set(callers) == expect, loc(alloc),
           "callers: %s (expected exactly eval_object and eval_array)" % ", ".join(callers))
     for c in callers:
